@@ -40,6 +40,7 @@ type Net struct {
 	Auto      bool // deliver written bytes immediately (network scheduling not under study)
 	Refuse    map[string]syscall.Errno
 	OnEvent   func(string)
+	ManualFor func(target string) bool // connections to these targets get scheduler-controlled delivery even in Auto mode
 }
 
 var Cur *Net
@@ -80,6 +81,7 @@ type Pair struct {
 	s2c    half
 	net    *Net
 	Target string
+	Manual bool
 }
 
 // End implements net.Conn.
@@ -195,7 +197,7 @@ func (e *End) Write(b []byte) (int, error) {
 	if e.peer().closed {
 		return 0, e.opErr("write", syscall.EPIPE)
 	}
-	if n.Auto && !h.stalled {
+	if n.Auto && !h.stalled && !(e.p.Manual && e.client) {
 		h.readable = append(h.readable, b...)
 		e.peer().poke()
 	} else {
@@ -214,7 +216,7 @@ func (e *End) Close() error {
 	e.closed = true
 	h := e.out()
 	h.finSent = true
-	if n.Auto && !h.stalled {
+	if n.Auto && !h.stalled && !(e.p.Manual && e.client) {
 		h.readable = append(h.readable, h.inflight...)
 		h.inflight = nil
 		h.finSeen = true
@@ -460,6 +462,7 @@ func (n *Net) DialPair(address string) (*Pair, error) {
 		return nil, &OpError{Op: "dial", Net: network, Addr: addr{network, address}, Err: e}
 	}
 	p := &Pair{ID: len(n.Conns), net: n, Target: address}
+	p.Manual = n.ManualFor != nil && n.ManualFor(address)
 	p.C = &End{p: p, client: true, wake: make(chan struct{}, 1)}
 	p.S = &End{p: p, wake: make(chan struct{}, 1)}
 	n.Conns = append(n.Conns, p)
@@ -487,3 +490,17 @@ func JoinHostPort(h, p string) string                 { return realnet.JoinHostP
 func ParseIP(s string) IP                             { return realnet.ParseIP(s) }
 
 var _ = errors.New
+
+// ManualPending lists the manually delivered connections that have client bytes (or a close)
+// waiting for the scheduler.
+func (n *Net) ManualPending() []*Pair {
+	n.mu.Lock()
+	defer n.mu.Unlock()
+	var out []*Pair
+	for _, p := range n.Conns {
+		if p.Manual && (len(p.c2s.inflight) > 0 || (p.c2s.finSent && !p.c2s.finSeen)) {
+			out = append(out, p)
+		}
+	}
+	return out
+}
